@@ -46,6 +46,17 @@ type Case struct {
 	Proto int    `json:"proto"`
 	Chain []Item `json:"chain"`
 	YAML  bool   `json:"via_yaml"`
+	Relay int    `json:"relay_layers,omitempty"` // DHCPv6: the request arrives inside this many Relay-Forward layers
+}
+
+// relayDepth counts the Relay-Forward layers around a DHCPv6 message.
+func relayDepth(d dhcpv6.DHCPv6) int {
+	n := 0
+	for d != nil && d.IsRelay() {
+		n++
+		d = d.(*dhcpv6.RelayMessage).Options.RelayMessage()
+	}
+	return n
 }
 
 // invocation log (the harness is single-threaded per case; guarded anyway)
@@ -163,7 +174,7 @@ func h6(beh string, tag byte) handler.Handler6 {
 		if resp == nil {
 			switch beh {
 			case "replace", "replacestop":
-				q := req.(*dhcpv6.Message)
+				q, _ := req.GetInnerMessage()
 				n := &dhcpv6.Message{MessageType: dhcpv6.MessageTypeAdvertise, TransactionID: q.TransactionID}
 				n.AddOption(q.GetOneOption(dhcpv6.OptionClientID))
 				add(n, nil)
@@ -400,10 +411,14 @@ func eval(r *ev.Run, c Case) {
 		}
 	} else {
 		m := pkt.Msg6{Type: 1, Xid: [3]byte{1, 3, 1}, Opts: []pkt.Opt6{{Code: 1, Data: []byte{0, 3, 0, 1, 2, 0, 0, 0, 0, 0x13}}}}
+		dgram := m.Bytes()
+		for l := 0; l < c.Relay; l++ {
+			dgram = conc.Relayed6(dgram, fmt.Sprintf("2001:db8:%x::1", 0xa+l), fmt.Sprintf("fe80::%x", 0xa+l), fmt.Sprintf("relay-%d", l))
+		}
 		if srv.Instrumented() {
-			out = srv.Serve6(net.Interface{}, hs6, [][]byte{m.Bytes()}, 1, &net.UDPAddr{IP: net.ParseIP("2001:db8::1"), Port: 546})
+			out = srv.Serve6(net.Interface{}, hs6, [][]byte{dgram}, 1, &net.UDPAddr{IP: net.ParseIP("2001:db8::1"), Port: 546})
 		} else {
-			out = srv.Run6(net.Interface{}, hs6, m.Bytes(), 1, &net.UDPAddr{IP: net.ParseIP("2001:db8::1"), Port: 546})
+			out = srv.Run6(net.Interface{}, hs6, dgram, 1, &net.UDPAddr{IP: net.ParseIP("2001:db8::1"), Port: 546})
 		}
 		if len(out.Sent) == 1 {
 			rep, _ := pkt.Parse6(out.Sent[0].Data)
@@ -427,6 +442,9 @@ func eval(r *ev.Run, c Case) {
 	for i, cl := range calls {
 		if cl.req != calls[0].req {
 			r.Violate("C13/request-identity", fmt.Sprintf("handler #%d did not receive the original request", i), c)
+		}
+		if d, ok := cl.req.(dhcpv6.DHCPv6); ok && c.Proto == 6 && relayDepth(d) != c.Relay {
+			r.Violate("C13/request-identity/relay-layers", fmt.Sprintf("handler #%d received a request with %d relay layers; the request arrived inside %d", i, relayDepth(d), c.Relay), c)
 		}
 		if i > 0 && cl.respIn != calls[i-1].respOut {
 			r.Violate("C13/response-threading", fmt.Sprintf("handler #%d did not receive its predecessor's response", i), c)
@@ -464,9 +482,15 @@ func run(r *ev.Run) {
 	for n := 0; n <= maxLen; n++ {
 		rec(nil, n, func(ch []Item) {
 			for _, proto := range []int{4, 6} {
-				eval(r, Case{proto, ch, false})
+				eval(r, Case{Proto: proto, Chain: ch})
 				if n <= 2 || !r.Quick() {
-					eval(r, Case{proto, ch, true})
+					eval(r, Case{Proto: proto, Chain: ch, YAML: true})
+				}
+				if proto == 6 && n <= 3 {
+					// the request arrives through one or two relay agents: handlers still get the
+					// original (relayed) request
+					eval(r, Case{Proto: proto, Chain: ch, Relay: 1})
+					eval(r, Case{Proto: proto, Chain: ch, Relay: 2})
 				}
 			}
 		})
@@ -477,7 +501,7 @@ func run(r *ev.Run) {
 	rk = func(prefix []Item, n int) {
 		if len(prefix) == n {
 			for _, proto := range []int{4, 6} {
-				eval(r, Case{proto, append([]Item{}, prefix...), false})
+				eval(r, Case{Proto: proto, Chain: append([]Item{}, prefix...)})
 			}
 			return
 		}
@@ -498,7 +522,7 @@ func run(r *ev.Run) {
 				ch := []Item{{"sd", "modify"}, {"sd", "modify"}, {"sd", "modify"}}
 				ch[pos] = Item{"as-" + n, beh}
 				for _, proto := range []int{4, 6} {
-					eval(r, Case{proto, ch, false})
+					eval(r, Case{Proto: proto, Chain: ch})
 				}
 			}
 		}
